@@ -122,11 +122,19 @@ def random_graph(rng, nmin, nmax, connected=False, allow_isolated=True, fams=Non
     return relabel(rng, path(max(nmin, 2))), "path"
 
 
-def to_nx(g):
+def to_nx(g, edge_order_seed=None):
+    """networkx graph on vertices 0..n-1 inserted in sorted order; with edge_order_seed the edges are inserted in a
+    shuffled order and orientation (the same labelled graph; only networkx's internal adjacency order differs)"""
     import networkx as nx
+    import random as _r
 
     n, edges = g
     G = nx.Graph()
     G.add_nodes_from(range(n))
+    edges = [tuple(e) for e in edges]
+    if edge_order_seed is not None:
+        rr = _r.Random(edge_order_seed)
+        rr.shuffle(edges)
+        edges = [(b, a) if rr.random() < 0.5 else (a, b) for a, b in edges]
     G.add_edges_from(edges)
     return G
